@@ -279,6 +279,7 @@ package genql
 //@ func SelectExpr
 //@   loop 0 ascending-range items[C20,C02]: expr.Exprs
 //@   at-call mapstore:data[name] assert no-omit[C20,C12]: !typeis(value, Ommit)
+//@   at-call mapstore:data[name] assert evaluated-value[C02]: called(ValueOf) && stored == callresult(ValueOf, 0) && fresh(target)
 
 //@ func FuncArgReader
 //@   loop 0 ascending-range args[C20,C18]: selectExprs
@@ -449,7 +450,8 @@ package genql
 
 //@ func BinaryExpr
 //@   split-returns
-//@   ensures null[C02]: called(ValueOf) && callresult(ValueOf, 1, 1) == nil && callresult(ValueOf, 0, 1) == nil ==> result == nil && err == nil
+//@   ensures null-left[C02]: called(ValueOf) && callresult(ValueOf, 1, 1) == nil && callresult(ValueOf, 0, 1) == nil ==> result == nil && err == nil
+//@   ensures null-right[C02]: err == nil && callresult(ValueOf, 0, 2) == nil ==> result == nil
 //@   ensures plus[C02]: err == nil && result != nil && expr.Operator == sqlparser.PlusOp ==> typeis(callresult(ValueOf, 0, 1), float64) && typeis(callresult(ValueOf, 0, 2), float64) ==>
 //@     | *result == callresult(ValueOf, 0, 1).(float64) + callresult(ValueOf, 0, 2).(float64)
 //@   ensures minus[C02]: err == nil && result != nil && expr.Operator == sqlparser.MinusOp ==> typeis(callresult(ValueOf, 0, 1), float64) && typeis(callresult(ValueOf, 0, 2), float64) ==>
